@@ -382,6 +382,13 @@ class Connection(object):
         cont = (not buf_empty or not up_empty)
         return cont
 
+    def is_tx_flushed(self):
+        ''' Determine if all octets taken by :py:meth:`send_raw` are sent.
+
+        :return: True if no data is waiting on the socket.
+        '''
+        return len(self.__tx_buf) == 0
+
     def send_ready(self):
         ''' Called to indicate that :py:meth:`send_raw` will return non-empty.
         This will attempt immediate transmit of chunks if available, and
@@ -535,7 +542,11 @@ class Messenger(Connection):
 
         :return: True if there are no data being processed RX or TX side.
         '''
-        return len(self.__rx_buf) == 0 and len(self.__tx_buf) == 0
+        return (
+            len(self.__rx_buf) == 0
+            and len(self.__tx_buf) == 0
+            and self.is_tx_flushed()
+        )
 
     def set_on_session_start(self, func):
         ''' Set a callback to be run when this session is started.
